@@ -231,6 +231,11 @@ func (c *Ctx) mapRangeVerdict(u FuncUnit, rs *ast.RangeStmt) (bool, string) {
 						return true
 					}
 				}
+				// min-by-key selection behind a method: `best.record(k, v)` where record keeps its arguments only
+				// when k orders before the key it already holds
+				if keyObj != nil && c.minByKeyRecorder(info, ce, keyObj) {
+					return true
+				}
 				// method call on a set-like receiver (Add, Insert, mark...) — treated as commutative only for
 				// the local closures / methods listed by the auditor; otherwise undecided
 				why = "calls `" + types.ExprString(ce.Fun) + "` once per element in iteration order (effect order may be observable)"
@@ -251,6 +256,86 @@ func (c *Ctx) mapRangeVerdict(u FuncUnit, rs *ast.RangeStmt) (bool, string) {
 		return true, "body only stores into maps, counts, sets flags, fills slices sorted afterwards or selects a minimum by key"
 	}
 	return false, why
+}
+
+// minByKeyRecorder: ce is a call of a module function that receives the range key as one of its arguments
+// and whose body is the min-by-key selection written on fields: one if statement whose condition
+// compares the key parameter with a field (`f.key <= key`, with any "nothing recorded yet" test beside it)
+// and whose body returns, followed only by assignments that store the parameters into fields, the key
+// parameter into the field it was compared with.  Map keys are distinct, so the element that remains
+// recorded is the one with the least (or greatest) key whatever the iteration order.
+func (c *Ctx) minByKeyRecorder(info *types.Info, ce *ast.CallExpr, keyObj types.Object) bool {
+	h := originOf(Callee(info, ce))
+	if h == nil {
+		return false
+	}
+	hd := c.declOf[h]
+	if hd == nil || hd.Body == nil {
+		return false
+	}
+	hinfo := c.pkgOf[hd].TypesInfo
+	sig := h.Type().(*types.Signature)
+	var keyParam types.Object
+	for i, a := range ce.Args {
+		if identObj(info, a) == keyObj && i < sig.Params().Len() {
+			keyParam = sig.Params().At(i)
+		}
+	}
+	if keyParam == nil || len(hd.Body.List) < 2 {
+		return false
+	}
+	guard, ok := hd.Body.List[0].(*ast.IfStmt)
+	if !ok || guard.Else != nil || guard.Init != nil || len(guard.Body.List) != 1 {
+		return false
+	}
+	if rs, ok := guard.Body.List[0].(*ast.ReturnStmt); !ok || len(rs.Results) != 0 {
+		return false
+	}
+	var keyField *types.Var
+	for _, be := range cmpAtomsOf(guard.Cond) {
+		switch be.Op {
+		case token.LSS, token.LEQ, token.GTR, token.GEQ:
+		default:
+			continue
+		}
+		for _, pr := range [][2]ast.Expr{{be.X, be.Y}, {be.Y, be.X}} {
+			if identObj(hinfo, pr[0]) == keyParam {
+				if f := FieldOfSelector(hinfo, pr[1]); f != nil {
+					keyField = f
+				}
+			}
+		}
+	}
+	if keyField == nil {
+		return false
+	}
+	storesKey := false
+	for _, st := range hd.Body.List[1:] {
+		as, ok := st.(*ast.AssignStmt)
+		if !ok || as.Tok != token.ASSIGN || len(as.Lhs) != len(as.Rhs) {
+			return false
+		}
+		for i, l := range as.Lhs {
+			f := FieldOfSelector(hinfo, l)
+			if f == nil {
+				return false
+			}
+			ro := identObj(hinfo, as.Rhs[i])
+			isParam := false
+			for j := 0; j < sig.Params().Len(); j++ {
+				if sig.Params().At(j) == ro {
+					isParam = true
+				}
+			}
+			if !isParam {
+				return false
+			}
+			if f == keyField && ro == keyParam {
+				storesKey = true
+			}
+		}
+	}
+	return storesKey
 }
 
 // sameSlotOnly: rhs is `append(slot, <anything>)` used as a set-union into a
